@@ -187,3 +187,22 @@ add("C17", "model_checking",
     "seeded samples. Names differing only in letter case are one configuration entry (config keys are case-insensitive) and are not "
     "generated; non-string entries and more than 32 services are outside the generated space.",
     "DESIGN.md 6 (C17), 8 (D10, D11), 9")
+
+add("C08", "model_checking",
+    "TLA+ spec of the input layer (ReadLineOps/ReadLine: evbuffer, readln CRLF, strtol, in-place tokenizer, argv[16], EOF) model-checked "
+    "by TLC against a chunking-independent contract; conformance on the real ASan/UBSan daemon: model-generated histories with junk "
+    "delivered in exact read() chunks / truncated at every byte, differential against the clean run, and exhaustive short byte strings "
+    "+ line mutations with probes, all traces judged by TLC (ReadLineTrace)",
+    "TLC decides exhaustively (streams <=5-7 bytes over 4-10-symbol alphabets incl. LF, CR, NUL, ':' and space, every chunking, EOF "
+    "after every byte, ARGV 2-3; 5.6e5 states quick, 1.8e7 thorough; six bug switches must each be refuted) that the "
+    "splitter/tokenizer delivers a function of the byte stream only, keeps only the unterminated tail and stores inside argv[]. Real "
+    "daemon (quick): 141 model histories with ~60 junk forms spliced in (unknown ids incl. ids beyond the int range, unknown commands, "
+    "malformed replies carrying the live tag, NUL / 8-bit bytes, 14-21 arguments, lines of 511-9000 bytes) in 4 932 deliveries - one "
+    "line per write, one write, byte by byte, every 2-chunk split, truncation at every byte followed by EOF - each compared step by "
+    "step with the clean line-at-a-time run (two real runs); 24 992 byte-level cases (all strings <=3 over 12 symbols in 16 contexts, "
+    "mutations of 21 valid lines) each followed by probes; TLC judges completion, no hang, exit 0, no sanitizer report, same treatment, "
+    "junk = stutter.",
+    "No-crash / no-hang / clean-exit / 'same treatment' are conformance and sanitizer exploration of the spec-generated input space (two "
+    "real runs compared by TLC), not model checking. An unterminated last line may be dropped (as the code does) or taken once. Chunks "
+    "are exact: each is written only after FIONREAD on the pipe reports 0.",
+    "DESIGN.md 6 (C08), 13.1, 10")
